@@ -359,7 +359,7 @@ def run_check(mod, tier, seed, replay=None):
         for em in extra_modules:
             theorems += theorem_names(os.path.join(LEAN, em.replace('.', '/') + '.lean'))
         if not ok_props and obligation_failure is None:
-            obligation_failure = first_error_theorem(log_props, props_file, theorems)
+            obligation_failure = first_error_theorem(log_props, props_file, theorem_names(props_file))
         # 3. audit
         axioms = {}
         if ok_props:
@@ -450,7 +450,8 @@ def run_check(mod, tier, seed, replay=None):
         v, _, e = run_cases(prop, bins, [case], timeout=60, tag='final')
         path = write_replay(prop, seed, {'kind': 'specfail', 'case': case.to_json(),
                                          'verdicts': v.get(0, verdicts[i]), 'oracle_says': 'implementation output violates the spec oracle',
-                                         'specfail_cases_this_run': len(new_spec)})
+                                         'specfail_cases_this_run': len(new_spec),
+                                         'broken_obligation': obligation_failure})
         print(f'VIOLATION property={prop} replay={path}')
         rc = 1
     elif obligation_failure or mism_cases:
